@@ -193,7 +193,7 @@ func (l *Log) Boundaries() []Pos {
 		out = append(out, Pos{f.Name, f.Base + 4})
 		for _, u := range f.Units {
 			switch u.U {
-			case "txxid", "txcommit", "txrollback", "ddl", "autorow", "stmtdml":
+			case "txxid", "txcommit", "txrollback", "ddl", "autorow", "stmtdml", "xidalone", "commitalone":
 				out = append(out, Pos{f.Name, u.Evs[len(u.Evs)-1].End})
 			}
 		}
@@ -519,6 +519,11 @@ func genUnit(r *rand.Rand, kind string, tables []*Table, gp GenParams, ts *uint3
 		}
 	case "ign":
 		add(genIgnorable(r, next(), false, gtidOn))
+	case "xidalone":
+		// a commit event that closes nothing (no BEGIN before it): a commit point of its own, an empty transaction
+		add(&Ev{K: "xid", TS: next()})
+	case "commitalone":
+		add(&Ev{K: "query", TS: next(), Cat: "commit", DB: pickS(r, "d", ""), SQL: randCase(r, "commit")})
 	}
 	return u
 }
@@ -645,7 +650,7 @@ func optTail(r *rand.Rand) []byte {
 	return b
 }
 
-var unitKinds = []string{"txxid", "txxid", "txcommit", "txrollback", "ddl", "autorow", "stmtdml", "ign", "rotate"}
+var unitKinds = []string{"txxid", "txxid", "txcommit", "txrollback", "ddl", "autorow", "stmtdml", "ign", "rotate", "txxid", "autorow", "xidalone", "commitalone"}
 
 // GenLog builds a random well-formed log.
 func GenLog(r *rand.Rand, cfg WireCfg, gp GenParams, bases []uint32) *Log {
